@@ -22,7 +22,10 @@ import (
 	"verifharness/internal/memdrv"
 )
 
-// LMOp: K "r"/"w" = read / write 4 bytes at line A, K "c" = control verb.
+// LMOp: K "r"/"w" = read / write 4 bytes at line A, K "c" = control verb,
+// K "s" = the driver stops retrieving data responses for the next Delay ticks
+// (Top-port back-pressure: the module's Top outgoing buffer fills) while it goes on
+// with the script.
 type LMOp struct {
 	K     string `json:"k"`
 	A     uint64 `json:"a,omitempty"`
@@ -73,13 +76,17 @@ func runLM(in *lmInput) (hx.Case, error) {
 			tracing.CollectIncomingBufferTrace(p)
 			tracing.CollectOutgoingBufferTrace(p)
 		}
-		cursor, delay, delayOf, ticks := 0, 0, -1, 0
+		cursor, delay, delayOf, ticks, stallUntil := 0, 0, -1, 0, 0
 		d.TickFn = func(dd *memdrv.Driver) bool {
 			// data responses are taken at once; control acknowledgements lazily, so
 			// that the module's Control outgoing buffer stays full for a while
 			ticks++
 			progress := false
 			for _, n := range []string{"Mem", "Ctrl"} {
+				if n == "Mem" && ticks <= stallUntil {
+					progress = true // keep ticking until the stall is over
+					continue
+				}
 				if n == "Ctrl" && in.AckEvery > 1 && ticks%in.AckEvery != 0 {
 					if dd.GetPortByName(n).PeekIncoming() != nil {
 						progress = true // keep ticking until the ack is due
@@ -97,6 +104,12 @@ func runLM(in *lmInput) (hx.Case, error) {
 			}
 			for cursor < len(in.Script) {
 				op := in.Script[cursor]
+				if op.K == "s" {
+					stallUntil = ticks + op.Delay
+					cursor++
+					progress = true
+					continue
+				}
 				if op.Delay > 0 {
 					if delayOf != cursor {
 						delayOf, delay = cursor, op.Delay
@@ -156,22 +169,28 @@ func runLM(in *lmInput) (hx.Case, error) {
 	if err != nil {
 		return hx.Case{}, err
 	}
-	mid, seen, total := false, 0, 0
+	mid, stall, seen, total := false, false, 0, 0
 	for _, op := range in.Script {
-		if op.K != "c" {
+		if op.K == "r" || op.K == "w" {
 			total++
 		}
 	}
 	for _, op := range in.Script {
-		if op.K != "c" {
+		if op.K == "r" || op.K == "w" {
 			seen++
-		} else if op.Cmd == "reset" && seen > 0 && seen < total {
+		} else if op.K == "c" && op.Cmd == "reset" && seen > 0 && seen < total {
 			mid = true
+		}
+		if op.K == "s" {
+			stall = true
 		}
 	}
 	c.Tags = []string{"case:lm", "mem:" + in.Kind, fmt.Sprintf("ctrl-buf:%d", max(1, in.PortBuf))}
 	if mid {
 		c.Tags = append(c.Tags, "reset:mid-traffic")
+	}
+	if stall {
+		c.Tags = append(c.Tags, "rsp-stall")
 	}
 	if !quiescent {
 		c.Tags = append(c.Tags, "script-incomplete")
@@ -202,7 +221,25 @@ func genLM(r *hx.Rand, tier string) input {
 		}
 		// control verbs back to back (no delay): the ack of one may still be queued
 		// when the next is handled
-		switch r.Pick(3, 3, 2, 2, 4) {
+		switch r.Pick(3, 3, 2, 2, 4, 5) {
+		case 5: // the requester stops taking responses; a Reset (or other verbs) falls into the stall
+			n := 6 + r.Intn(20)
+			in.Script = append(in.Script, LMOp{K: "s", Delay: n})
+			if r.Bool() {
+				traffic(1 + r.Intn(4))
+			}
+			switch r.Intn(4) {
+			case 0:
+				c("pause", r.Intn(n))
+				c("reset", r.Intn(3))
+				c("enable", 0)
+			case 1:
+				c("drain", r.Intn(n))
+				c("reset", r.Intn(n))
+				c("enable", 0)
+			default:
+				c("reset", r.Intn(n))
+			}
 		case 4: // several verbs, then a reset, all at once
 			for k := 2 + r.Intn(3); k > 0; k-- {
 				c([]string{"enable", "pause", "enable"}[r.Intn(3)], 0)
